@@ -986,11 +986,14 @@ func SplitMrt(data []byte, atEOF bool) (advance int, token []byte, err error) {
 	if errh != nil {
 		return 0, nil, errh
 	}
-	totlen := int(hdr.Len + MRT_COMMON_HEADER_LEN)
-	if len(data) < totlen { // need to read more
+	// Add in 64 bits: hdr.Len + 12 wraps in uint32 for lengths close to
+	// 2^32, and a wrapped total of 0 is an empty token with no advance,
+	// which bufio.Scanner would be handed again forever.
+	totlen := int64(hdr.Len) + MRT_COMMON_HEADER_LEN
+	if int64(len(data)) < totlen { // need to read more
 		return 0, nil, nil
 	}
-	return totlen, data[:totlen], nil
+	return int(totlen), data[:totlen], nil
 }
 
 func ParseBody(data []byte, h *MRTHeader) (*MRTMessage, error) {
